@@ -65,6 +65,8 @@ def run(ctx: Ctx):
     )
     ctx.guarded(flip_paired, ctx)
     ctx.guarded(dispatch_agree, ctx)
+    res.rule("DECIDING-ENTRY", "svd_flip: in each branch the sign vector is the sign of entries D[i, j] selected by argmax(abs(D), axis=a); the arg-max index is used as an index into axis a, it is paired with an enumeration of the other axis, the signs are applied along the axis they were decided for, and no arithmetic combination of entries (which can vanish for a non-zero vector) is used", floor=2)
+    ctx.guarded(deciding_entry, ctx)
     res.rule("NONNEG-OPTION", "sign analysis ({non-negative, any} abstract interpretation, the domain of C10): for arbitrary (signed) data and arbitrary singular vectors, make_svd_non_negative returns two entrywise non-negative factors under each of its variants, and svd_interface with the non-negative option returns exactly those", floor=4)
     ctx.guarded(nonneg_option, ctx)
 
@@ -181,3 +183,109 @@ def nonneg_option(ctx: Ctx):
     res.instance("NONNEG-OPTION", "svd_interface: the non-negative pair is what is returned", sample={"ok": ok})
     if not ok:
         ctx.finding("NONNEG-OPTION", g, g.node, "svd_interface no longer returns exactly the pair produced by make_svd_non_negative when the non-negative option is on (it is re-bound, post-processed or not requested)", construct="svd_interface: non-negative pair not returned as is")
+
+
+# ---------------------------------------------------------------------------------
+# DECIDING-ENTRY: the sign of a singular pair is that of its largest-magnitude entry
+# ---------------------------------------------------------------------------------
+def deciding_entry(ctx: Ctx):
+    """Per branch of svd_flip: `signs = sign(<entries D[i, j]>)` where one index comes from
+    argmax(abs(D), axis=a) and the other enumerates the remaining axis.
+      * the argmax-derived index must sit at position a of D[i, j] (an index *into* axis a),
+        the enumerated one must be range(shape(D)[1 - a]);
+      * per-column signs (a == 0) multiply D as `D * signs`, per-row signs (a == 1) as
+        `D * signs[:, None]`;
+      * a sign argument that adds / subtracts data entries can vanish for a non-zero vector
+        (sign 0 annihilates the singular pair in U and V)."""
+    res = ctx.res
+    f = ctx.repo.func(S + "svd_flip")
+    branches = [s for s in f.node.body if isinstance(s, ast.If)]
+    if len(branches) != 1 or not branches[0].orelse:
+        raise AnalysisError("DECIDING-ENTRY: svd_flip is no longer one if / else on the deciding factor; cannot decide")
+
+    def cn(c):
+        return c.func.attr if isinstance(c.func, ast.Attribute) else (c.func.id if isinstance(c.func, ast.Name) else "")
+
+    for label, body in (("U-based", branches[0].body), ("V-based", branches[0].orelse)):
+        nodes = [n for s in body for n in ast.walk(s)]
+        sign_defs = [n for n in nodes if isinstance(n, ast.Assign) and isinstance(n.value, ast.Call) and cn(n.value) == "sign" and n.value.args]
+        if not sign_defs:
+            raise AnalysisError(f"DECIDING-ENTRY: no sign vector in the {label} branch")
+        d = sign_defs[0]
+        arg = d.value.args[0]
+        inner = arg
+        while isinstance(inner, ast.Call) and cn(inner) in ("tensor", "array", "asarray") and inner.args:
+            inner = inner.args[0]
+        # arithmetic on data entries can cancel
+        if any(isinstance(n, ast.BinOp) and isinstance(n.op, (ast.Add, ast.Sub)) for n in ast.walk(inner)) and not isinstance(inner, (ast.ListComp, ast.GeneratorExp)):
+            res.instance("DECIDING-ENTRY", f"svd_flip [{label}]: {src(d)[:60]}", sample={"kind": "arithmetic", "ok": False})
+            ctx.finding("DECIDING-ENTRY", f, d, f"svd_flip [{label}]: `{src(d)[:90]}` takes the sign of a sum / difference of entries, which is 0 for a non-zero vector whose extreme entries cancel: the sign vector then annihilates that singular pair in both U and V (the product changes) -- take the sign of the largest-magnitude entry itself", construct=f"svd_flip [{label}]: sign of an arithmetic combination")
+            continue
+        if not isinstance(inner, (ast.ListComp, ast.GeneratorExp)) or len(inner.generators) != 1:
+            raise AnalysisError(f"DECIDING-ENTRY: the sign argument of the {label} branch is not a selection of entries the rule recognises (`{src(arg)[:60]}`); cannot decide")
+        g = inner.generators[0]
+        elt = inner.elt
+        if not (isinstance(elt, ast.Subscript) and isinstance(elt.value, ast.Name) and isinstance(elt.slice, ast.Tuple) and len(elt.slice.elts) == 2 and isinstance(g.iter, ast.Call) and cn(g.iter) == "zip" and len(g.iter.args) == 2 and isinstance(g.target, ast.Tuple) and len(g.target.elts) == 2):
+            raise AnalysisError(f"DECIDING-ENTRY: the selection in the {label} branch is not `[D[i, j] for (i, j) in zip(a, b)]`; cannot decide")
+        D = elt.value.id
+        tnames = [e.id if isinstance(e, ast.Name) else None for e in g.target.elts]
+        idx_pos = {}
+        for pos, e in enumerate(elt.slice.elts):
+            if isinstance(e, ast.Name) and e.id in tnames:
+                idx_pos[tnames.index(e.id)] = pos  # zip argument number -> position in D[., .]
+        info = {}
+        for k, a in enumerate(g.iter.args):
+            if isinstance(a, ast.Name):
+                defs = [n for n in nodes if isinstance(n, ast.Assign) and any(is_name(t, a.id) for t in n.targets)]
+                if len(defs) == 1 and isinstance(defs[0].value, ast.Call) and cn(defs[0].value) == "argmax":
+                    c = defs[0].value
+                    ax = next((kw.value.value for kw in c.keywords if kw.arg == "axis" and isinstance(kw.value, ast.Constant)), None)
+                    if ax is None and len(c.args) > 1 and isinstance(c.args[1], ast.Constant):
+                        ax = c.args[1].value
+                    m = c.args[0] if c.args else None
+                    over_abs = isinstance(m, ast.Call) and cn(m) == "abs" and m.args and is_name(m.args[0], D)
+                    info[k] = ("argmax", ax, over_abs)
+            elif isinstance(a, ast.Call) and cn(a) == "range" and len(a.args) == 1:
+                r = a.args[0]
+                if isinstance(r, ast.Subscript) and isinstance(r.value, ast.Call) and cn(r.value) == "shape" and r.value.args and is_name(r.value.args[0], D) and isinstance(r.slice, ast.Constant):
+                    info[k] = ("range", r.slice.value, True)
+        am = [k for k, v in info.items() if v[0] == "argmax"]
+        rg = [k for k, v in info.items() if v[0] == "range"]
+        if len(am) != 1 or len(rg) != 1 or set(idx_pos) != {0, 1}:
+            raise AnalysisError(f"DECIDING-ENTRY: the {label} selection does not pair one argmax with one range(shape({D})[k]); cannot decide")
+        ax, over_abs = info[am[0]][1], info[am[0]][2]
+        rk = info[rg[0]][1]
+        # broadcast of the sign vector onto D
+        per = None
+        for n in nodes:
+            if isinstance(n, ast.Assign) and is_name(n.targets[0], D) and isinstance(n.value, ast.BinOp) and isinstance(n.value.op, ast.Mult):
+                for side in (n.value.left, n.value.right):
+                    base = side
+                    subs = []
+                    while isinstance(base, ast.Subscript):
+                        subs.append(base.slice)
+                        base = base.value
+                    if isinstance(base, ast.Name) and base.id == d.targets[0].id:
+                        last = subs[0] if subs else None
+                        if last is None:
+                            per = 0  # D * signs: one sign per column
+                        elif isinstance(last, ast.Tuple) and len(last.elts) == 2 and isinstance(last.elts[1], ast.Constant) and last.elts[1].value is None:
+                            per = 1  # D * signs[:, None]: one sign per row
+                        elif isinstance(last, ast.Slice):
+                            per = 0
+        problems = []
+        if not over_abs:
+            problems.append(f"the arg-max is not taken over abs({D})")
+        if ax not in (0, 1):
+            problems.append("the arg-max axis is not a literal 0 / 1")
+        else:
+            if idx_pos[am[0]] != ax:
+                problems.append(f"argmax(..., axis={ax}) yields indices INTO axis {ax} of {D}, but they are used as the index of axis {idx_pos[am[0]]}")
+            if rk != 1 - ax:
+                problems.append(f"argmax over axis {ax} gives one index per position of axis {1 - ax}, but it is paired with range(shape({D})[{rk}])")
+            if per is not None and per != ax:
+                problems.append(f"the signs are applied per {'column' if per == 0 else 'row'} of {D} but decided per {'column' if ax == 0 else 'row'}")
+        ok = not problems
+        res.instance("DECIDING-ENTRY", f"svd_flip [{label}]: {src(d)[:50]}", sample={"deciding_matrix": D, "argmax_axis": ax, "argmax_index_position": idx_pos.get(am[0]), "range_axis": rk, "applied_per": {0: "column", 1: "row", None: None}[per], "ok": ok})
+        if not ok:
+            ctx.finding("DECIDING-ENTRY", f, d, f"svd_flip [{label}]: " + "; ".join(problems) + f": the sign of each deciding vector is then taken from an entry that is not its largest-magnitude one, so the advertised sign convention does not hold", construct=f"svd_flip [{label}]: " + problems[0][:80])
